@@ -238,5 +238,18 @@ func corpusScenarios() []*scenario {
 		b.add(ids...).add(h).remove(ids[2]).add(ids[2]).remove(ids[0])
 		res = append(res, b.sc)
 	}
+	{
+		// 15: a conflicting transaction that the new transaction's payer merely co-signed (its fee is paid by another
+		// sender) must not be subtracted from the payer's expected fee sum: 100 + 120 > 200, so a2 is refused
+		// although 100 + 120 - 50 <= 200
+		b := newSB("cosigned-conflict-is-not-mine", 4)
+		a1 := b.tx(0, 100, []int{2}, nil, -1, false)
+		e := b.tx(0, 50, []int{3, 2}, nil, -1, false)
+		a2 := b.tx(0, 120, []int{2}, []int{e}, -1, false)
+		a3 := b.tx(0, 100, []int{2}, []int{e}, -1, false) // 100 + 100 = 200: accepted, replaces e
+		b.bal(2, 0, 200).bal(3, 0, 1000)
+		b.add(a1, e, a2, a3)
+		res = append(res, b.sc)
+	}
 	return res
 }
